@@ -6,6 +6,7 @@ import (
 	"fmt"
 	"io"
 	"net"
+	"os"
 	"runtime"
 	"time"
 )
@@ -28,6 +29,27 @@ type Conn struct {
 
 	Written    [][]byte // every successful Write of this end, in order
 	CloseCalls int
+
+	// RecvBuf > 0: at most RecvBuf unread bytes fit into this end's receive buffer; the peer's
+	// Write delivers what fits and blocks for the rest until this end has read (back-pressure
+	// of a slow reader).  0 = unbounded.
+	RecvBuf int
+	// write deadline of this end (SetWriteDeadline): a virtual-time timer; once it has fired,
+	// pending and later writes fail with a timeout until the deadline is set anew
+	wdl      *vtimer
+	wexpired bool
+	// writer: the goroutine whose Write is under way (part of its buffer accepted); like the write
+	// lock of a netFD it keeps the Writes of other goroutines out until that Write has returned
+	writer *G
+}
+
+type timeoutError struct{}
+
+func (timeoutError) Error() string   { return "i/o timeout" }
+func (timeoutError) Timeout() bool   { return true }
+func (timeoutError) Temporary() bool { return true }
+func (timeoutError) Is(err error) bool {
+	return err == os.ErrDeadlineExceeded
 }
 
 type addr string
@@ -70,9 +92,16 @@ func (c *Conn) Write(p []byte) (int, error) {
 	if s.dead {
 		return 0, errClosedConn
 	}
-	o := &op{kind: opWrite, conn: c, buf: append([]byte(nil), p...)}
-	s.park(o)
-	return o.rn, o.rerr
+	// one visible operation per accepted piece (the whole buffer unless the peer's receive buffer is bounded)
+	total := 0
+	for {
+		o := &op{kind: opWrite, conn: c, buf: append([]byte(nil), p[total:]...)}
+		s.park(o)
+		total += o.rn
+		if o.rerr != nil || total >= len(p) || s.dead {
+			return total, o.rerr
+		}
+	}
 }
 
 func (c *Conn) Close() error {
@@ -92,7 +121,36 @@ func (c *Conn) LocalAddr() net.Addr                { return addr(c.id) }
 func (c *Conn) RemoteAddr() net.Addr               { return addr(c.peer.id) }
 func (c *Conn) SetDeadline(t time.Time) error      { return nil }
 func (c *Conn) SetReadDeadline(t time.Time) error  { return nil }
-func (c *Conn) SetWriteDeadline(t time.Time) error { return nil }
+// SetWriteDeadline is a visible operation: the deadline is a property of the connection and
+// also applies to a Write of another goroutine that is already blocked.  (SetDeadline and
+// SetReadDeadline are not modelled: nothing on the explored paths relies on them.)
+func (c *Conn) SetWriteDeadline(t time.Time) error {
+	s := S
+	if s == nil || s.dead {
+		return nil
+	}
+	Touch("wdeadline:" + c.id)
+	if c.wdl != nil {
+		c.wdl.active = false
+		c.wdl = nil
+	}
+	c.wexpired = false
+	if t.IsZero() {
+		return nil
+	}
+	d := t.Sub(Now())
+	if d <= 0 {
+		c.wexpired = true
+		return nil
+	}
+	tm := &vtimer{deadline: s.now + d, active: true, conn: c}
+	g := s.cur
+	g.nobj++
+	tm.id = fmt.Sprintf("%s~%d", g.id, g.nobj)
+	s.timers = append(s.timers, tm)
+	c.wdl = tm
+	return nil
+}
 
 var _ net.Conn = (*Conn)(nil)
 
